@@ -45,7 +45,7 @@ Theorem C09_hw_tree_acyclic :
       forall W, (forall e, In e W -> In e (id_deps d ri n nt pairs)) -> all_wait W -> W = [].
 Proof.
   intros d g c ri n nt dp Hnt Hb Hc Hri He Ha Htr H1 H2 H3 H4 Hatt Hcert pairs Hp.
-  pose proof (hw_tree_acyclic d g c ri n nt dp Hnt Hb Hc Hri He Ha Htr H1 H2 H3 H4 Hatt Hcert pairs Hp) as Hac.
+  pose proof (hw_tree_acyclic d g c ri n nt dp Hnt Hb Hc Hri He Ha (contract_ref g c) Htr H1 H2 H3 H4 Hatt Hcert pairs Hp) as Hac.
   split; [exact Hac|]. intros W Hsub Hall. eapply acyclic_no_deadlock; eauto.
 Qed.
 Print Assumptions C09_hw_tree_acyclic.
@@ -86,14 +86,52 @@ Theorem C09_hw_tree_acyclic_src :
     tree_certb g dp = true ->
     forall pairs : list (cni * cni),
       (forall s0 t, In (s0, t) pairs -> In s0 (c_nis c) /\ In t (c_nis c)) ->
-      acyclic (src_deps c d ri n nt pairs) /\
-      forall W, (forall e, In e W -> In e (src_deps c d ri n nt pairs)) -> all_wait W -> W = [].
+      acyclic (src_deps sp_reference c d ri n nt pairs) /\
+      forall W, (forall e, In e W -> In e (src_deps sp_reference c d ri n nt pairs)) -> all_wait W -> W = [].
 Proof.
   intros d g c ri n nt dp Hnt Hb Hc Hri He Ha Hfh H1 H2 H3 Hcert pairs Hp.
-  pose proof (hw_tree_acyclic_src d g c ri n nt dp Hnt Hb Hc Hri He Ha Hfh H1 H2 H3 Hcert pairs Hp) as Hac.
+  pose proof (hw_tree_acyclic_src d g c ri n nt dp Hnt Hb Hc Hri He Ha (contract_ref g c) Hfh H1 H2 H3 Hcert pairs Hp) as Hac.
   split; [exact Hac|]. intros W Hsub Hall. eapply acyclic_no_deadlock; eauto.
 Qed.
 Print Assumptions C09_hw_tree_acyclic_src.
+
+(* Part 6: all of the above for the oracle the generator really uses -- Paths.sp_nx, the mirror of networkx's
+   bidirectional search, proved to return shortest paths (C14_networkx_mirror_returns_shortest_paths): the tables and
+   route words these theorems speak about are the ones the model emits with sp_nx, which the harness compares field by
+   field with floogen's.  The harness evaluates exactly these hypotheses (request `tree`, with sp_nx). *)
+From FV Require Import Paths NxProofs NxHw.
+Theorem C09_model_tree_nx :
+  forall (d : desc) (g : graph) (c : compiled) (ri : rinfo) (n : netlist) (dp : list (string * Z)),
+    build d = Ok g -> compile d g = Ok c -> gen_routing_info sp_nx c = Ok ri -> emit c ri = Ok n -> d_algo d = ID ->
+    forallb (transitb sp_nx c) (c_nis c) = true ->
+    names_sepb g Req = true -> names_sepb g Rsp = true -> single_attachb g c = true -> links_typedb g c = true ->
+    degrees_fitb c = true -> attachedb c Req = true -> attachedb c Rsp = true -> tree_certb g dp = true ->
+    C09_on n.
+Proof. exact model_tree_C09_nx. Qed.
+Print Assumptions C09_model_tree_nx.
+
+Theorem C09_tree_conditions_sound_nx :
+  forall (d : desc) (g : graph) (c : compiled) (ri : rinfo) (n : netlist),
+    build d = Ok g -> compile d g = Ok c -> gen_routing_info sp_nx c = Ok ri -> emit c ri = Ok n -> d_algo d = ID ->
+    (exists bs, tree_conditions sp_nx d = Ok bs /\ forallb (fun b => b) bs = true) -> C09_on n.
+Proof. exact tree_conditions_sound_nx. Qed.
+Print Assumptions C09_tree_conditions_sound_nx.
+
+Theorem C09_hw_tree_acyclic_src_nx :
+  forall (d : desc) (g : graph) (c : compiled) (ri : rinfo) (n : netlist) (nt : net) (dp : list (string * Z)),
+    net_ok d nt ->
+    build d = Ok g -> compile d g = Ok c -> gen_routing_info sp_nx c = Ok ri -> emit c ri = Ok n -> d_algo d = SRC ->
+    first_hopb sp_nx g c nt = true ->
+    names_sepb g nt = true -> single_attachb g c = true -> links_typedb g c = true ->
+    tree_certb g dp = true ->
+    forall pairs : list (cni * cni),
+      (forall s0 t, In (s0, t) pairs -> In s0 (c_nis c) /\ In t (c_nis c)) ->
+      acyclic (src_deps sp_nx c d ri n nt pairs).
+Proof.
+  intros d g c ri n nt dp Hnt Hb Hc Hri He Ha.
+  exact (hw_tree_acyclic_src_gen sp_nx (nxB g) d g c ri n nt dp Hnt Hb Hc Hri He Ha (contract_nx d g c Hb Hc)).
+Qed.
+Print Assumptions C09_hw_tree_acyclic_src_nx.
 
 (* the generic core, for any set of routes over any links *)
 Theorem C09_tree_routes_acyclic :
@@ -114,10 +152,10 @@ Print Assumptions C09_tree_routes_acyclic.
    certificate, on the request and on the response network; the mesh is (rightly) not certified as a tree *)
 From FV Require Import Examples.
 Example C09_hw_tree_nonvacuous :
-  forallb (fun d =>
-    match tree_conditions sp_reference d with
+  forallb (fun sp => forallb (fun d =>
+    match tree_conditions sp d with
     | Ok bs => forallb (fun b => b) bs && Nat.eqb (length bs) 10
     | Err _ => false
-    end) [ex_star ID; ex_tree ID; ex_star SRC; ex_tree SRC] = true /\
-  match tree_conditions sp_reference (ex_mesh ID) with Ok [false] => true | _ => false end = true.
+    end) [ex_star ID; ex_tree ID; ex_star SRC; ex_tree SRC]) [sp_reference; sp_nx] = true /\
+  match tree_conditions sp_nx (ex_mesh ID) with Ok [false] => true | _ => false end = true.
 Proof. vm_compute. auto. Qed.
